@@ -13,7 +13,7 @@ var WideSizes = []int{1, 2, 3, 4, 5, 6, 7, 8, 9, 10, 11, 12, 13, 14, 15, 16, 17,
 // WideKinds are the list-like constructs of the language.
 var WideKinds = []string{"project", "project-names", "extend", "extend-unnamed", "summarize-aggs", "summarize-keys", "sort", "in", "call-args", "strcat", "and", "or", "plus", "minus",
 	"join-conds", "render-props", "lets", "let-chain", "statements", "wheres", "extends", "parens", "qualified", "neg-parens", "not-nest", "iff-nest", "index-nest", "joins",
-	"in-consts", "let-uses", "where-consts", "in-lits"}
+	"in-consts", "let-uses", "where-consts", "in-lits", "in-plain"}
 
 // WideSizesBig continues WideSizes up to a few thousand elements.
 var WideSizesBig = []int{512, 999, 1000, 1001, 1023, 1024, 1025, 2047, 2048, 2049, 2100, 4097}
@@ -90,6 +90,17 @@ func Wide(kind string, n int) *Program {
 				v = Num(fmt.Sprint(i))
 			}
 			e.Kids = append(e.Kids, v)
+		}
+		return q(&Op{K: "where", X: e})
+	case "in-plain":
+		// plain number and string literals only (what a literal-list fast path looks for)
+		e := In(Name("x"))
+		for i := 0; i < n; i++ {
+			if i%4 == 3 {
+				e.Kids = append(e.Kids, StrLit(fmt.Sprint("s", i), i%8 == 3))
+			} else {
+				e.Kids = append(e.Kids, Num(fmt.Sprint(i)))
+			}
 		}
 		return q(&Op{K: "where", X: e})
 	case "in-lits":
